@@ -176,7 +176,12 @@ def pool_for(pid, tier, seed):
     rnd = [c for c in rnd if c['name'] not in names]
     allp = core + rnd
     n = prop_num(pid)
-    if n in (1, 9, 10, 16, 18):
+    if n == 16:
+        # swap / move construction hand over block AND allocator: every combination of the propagation traits for a
+        # list without and a list with an address table
+        ap = [c for c in cfggen.allocator_pool() if c['name'].startswith(('u32_u8__', 'u8_Vu16__'))]
+        return allp + (ap if tier == 'thorough' else [c for c in ap if c['alloc'][1] != c['alloc'][2]])
+    if n in (1, 9, 10, 18):
         return allp
     if n in (2, 3, 4, 5):
         if tier == 'thorough':
